@@ -30,6 +30,9 @@ type Project struct {
 	Files  map[string]string `json:"files"`
 	Root   string            `json:"root"`
 	Banned []string          `json:"banned,omitempty"`
+	// BanSplit > 0: the banned kinds are passed as several WithBannedDirectives
+	// options (the list is cut after every BanSplit-th kind).
+	BanSplit int `json:"ban_split,omitempty"`
 	// Dirs are directories to create (for "INCLUDE of a directory" cases).
 	Dirs []string `json:"dirs,omitempty"`
 	// NoFixedSeed leaves the regex example generator unseeded.
@@ -153,7 +156,13 @@ func (p Project) options() []core.Option {
 				dd = append(dd, e)
 			}
 		}
-		oo = append(oo, core.WithBannedDirectives(dd...))
+		if p.BanSplit > 0 {
+			for i := 0; i < len(dd); i += p.BanSplit {
+				oo = append(oo, core.WithBannedDirectives(dd[i:min(i+p.BanSplit, len(dd))]...))
+			}
+		} else {
+			oo = append(oo, core.WithBannedDirectives(dd...))
+		}
 	}
 	return oo
 }
